@@ -167,7 +167,8 @@ class Typestate:
             st[var] = frozenset(new)
             return st
 
-        e = atom
+        from .astutil import canon
+        e = canon(atom)
         if isinstance(e, ast.Compare) and len(e.ops) == 1:
             left, op, right = e.left, e.ops[0], e.comparators[0]
             # X.status == / != OrderStatus.S
